@@ -200,10 +200,20 @@ func hC07RestOut() {
 	if rule == 0 {
 		verifAssume(len(msg.fvals[1]) > 0)
 	}
-	payload := toyAppendFields(false, nil, msg)
-	req := &http.Request{Method: "POST", URL: &url.URL{Path: pipePath}, Proto: "HTTP/2", ProtoMajor: 2, Header: http.Header{"Content-Type": {"application/grpc+proto"}},
-		Body: &fakeBody{data: appendFrame(nil, 0, payload)}, ContentLength: -1}
-	f.tr.ServeHTTP(f.sink, req)
+	mkReq := func(m *fakeMsg) *http.Request {
+		return &http.Request{Method: "POST", URL: &url.URL{Path: pipePath}, Proto: "HTTP/2", ProtoMajor: 2, Header: http.Header{"Content-Type": {"application/grpc+proto"}},
+			Body: &fakeBody{data: appendFrame(nil, 0, toyAppendFields(false, nil, m))}, ContentLength: -1}
+	}
+	if verifChoose("afterEarlierMessage", 2) == 1 {
+		// the rule's route target is shared by every RPC: convert a different message through it first
+		old := &fakeMsg{}
+		old.fvals[0], old.fset[0] = "OLD", true
+		old.fvals[1], old.fset[1] = "PREVIOUS", true
+		f.tr.ServeHTTP(newFakeSink(), mkReq(old))
+		f.backend.rec = backendRecord{}
+		f.backend.script = &respScript{msgs: []wireMsg{{}}}
+	}
+	f.tr.ServeHTTP(f.sink, mkReq(msg))
 	rec := &f.backend.rec
 	verifObsStr("backend-path", rec.path)
 	verifObsStr("backend-query", rec.rawQuery)
